@@ -629,6 +629,12 @@ func (v *vc) instrMods(fr *frame, in ssa.Instruction, m *modSet, depth int) {
 	switch x := in.(type) {
 	case *ssa.Store:
 		v.ptrMods(fr, x.Addr, m)
+	case *ssa.Next:
+		if rng, ok := x.Iter.(*ssa.Range); ok {
+			if _, isMap := rng.X.Type().Underlying().(*types.Map); isMap {
+				m.locals[v.rangeSeenKey(fr, rng)] = true
+			}
+		}
 	case *ssa.MapUpdate:
 		mt := x.Map.Type().Underlying().(*types.Map)
 		a, b, c := v.mapHeaps(mt)
